@@ -375,7 +375,7 @@ def short(callee):
 
 # ---- forward flow (where does a value end up) ------------------------------------------------------
 
-def sinks(body, start_local, follow_pass_through=True, follow_refs=True, max_steps=400):
+def sinks(body, start_local, follow_pass_through=True, follow_refs=True, max_steps=400, into_closures=True):
     """Forward slice: the places a value that lives in `start_local` can flow to.
     Returns a list of sinks: dicts with k in
        call  (bb, arg index, term)         passed to a call (not a pass-through)
@@ -426,9 +426,7 @@ def sinks(body, start_local, follow_pass_through=True, follow_refs=True, max_ste
                         p = operand_place(o)
                         if p is not None and p[0] == l:
                             out.append({"k": "agg", "ak": r.get("ak"), "def": r.get("def"), "variant": r.get("variant"), "idx": idx, "bb": bi, "l": st.get("l")})
-                            if len(lhs) == 1:
-                                work.append(lhs[0])
-                            else:
+                            if into_closures or r.get("ak") not in ("closure", "coroutine"):
                                 work.append(lhs[0])
                 elif k == "discr":
                     if r["p"][0] == l:
@@ -477,3 +475,50 @@ def agg_sites(body, adt=None, variant=None, ak="adt"):
                 if variant is not None and r.get("variant") != variant:
                     continue
                 yield bi, si, st
+
+
+def upvar_sinks(body, idx, into_closures=True):
+    """forward flow of the captured variable `idx` of a closure / coroutine body (place _1.f<idx> or (*_1).f<idx>)"""
+    out = []
+
+    def is_up(p):
+        q = [e for e in p[1:] if e != "*"]
+        return p[0] == 1 and q and q[0] == "f%d" % idx
+
+    for bi, blk in enumerate(body.blocks):
+        if blk["c"]:
+            continue
+        for si, st in enumerate(blk["s"]):
+            if st["k"] != "assign":
+                continue
+            r = st["r"]
+            k = r["k"]
+            lhs = st["p"]
+            if k in ("use", "cast"):
+                p = operand_place(r["o"])
+                if p is not None and is_up(p):
+                    out.append({"k": "moved", "to": lhs[0], "bb": bi})
+                    out.extend(sinks(body, lhs[0], into_closures=into_closures))
+            elif k in ("ref", "copyderef", "rawptr"):
+                if is_up(r["p"]):
+                    out.extend(sinks(body, lhs[0], into_closures=into_closures))
+            elif k == "agg":
+                for i, o in enumerate(r["ops"]):
+                    p = operand_place(o)
+                    if p is not None and is_up(p):
+                        out.append({"k": "agg", "ak": r.get("ak"), "def": r.get("def"), "variant": r.get("variant"), "idx": i, "bb": bi, "l": st.get("l")})
+                        if into_closures or r.get("ak") not in ("closure", "coroutine"):
+                            out.extend(sinks(body, lhs[0], into_closures=into_closures))
+        t = blk["t"]
+        if t["k"] == "call":
+            for i, o in enumerate(t["args"]):
+                p = operand_place(o)
+                if p is not None and is_up(p):
+                    if is_pass_through(t.get("callee")) and i == 0:
+                        out.extend(sinks(body, t["dest"][0], into_closures=into_closures))
+                    else:
+                        out.append({"k": "call", "bb": bi, "idx": i, "t": t})
+        elif t["k"] == "drop":
+            if is_up(t["p"]):
+                out.append({"k": "drop", "bb": bi})
+    return out
